@@ -205,6 +205,21 @@ def run_expression(col, tier):
         return not bad, "assembly/expression/_expression.py FormExpression._init_or_update_forms: %s" % "; ".join(bad[:3])
     col.check("C02.O9", "Form re-assembled on other fields", "assemble(v=, u=) on fields other than those the form was created with uses the bases, volumes and indices of the fields it is given", chk_update)
 
+    def chk_reload():
+        # the same container, but its region was reloaded in place (mesh moved): new basis gradients and volumes
+        ra3, rb3 = _regions("r")
+        v3 = micro.make_fields(it, [("Field", 2, 0)], ra3, rb3)[0]
+        fc3 = micro.container(it, [v3])
+        form = it.call(it.call(Form, [], dict(v=fc3, u=fc3)), [[weak_of(A3)]], {})
+        it.call_method(form, "assemble", [], dict(v=fc3, u=fc3))
+        ra3.dhdX = symarray("dhR", ra3.dhdX.shape)
+        ra3.dV = symarray("dVR", ra3.dV.shape)
+        K = micro.dense(it.call_method(form, "assemble", [], dict(v=fc3, u=fc3)))
+        want = ref_bilinear(ra3, ra3, 2, 2, lambda i, J, k, L, q, c: A3[i, J, k, L, q, c], True, True)
+        bad = diff_dense(K, want)
+        return not bad, "assembly/expression/_expression.py FormExpression._init_or_update_forms: %s" % "; ".join(bad[:3])
+    col.check("C02.O9", "Form re-assembled after its region was reloaded", "assemble(v=, u=) with the same container after the region's arrays changed (mesh moved, region reloaded in place) uses the current basis gradients and volumes", chk_reload)
+
     def chk_type():
         form = it.call(it.call(Form, [], dict(v=fc, u=fc)), [[weak_of(A3)]], {})
         try:
